@@ -249,9 +249,11 @@ func (g *c09gen) add(op ops.Op) int {
 // wrap chooses how heavily the result of op is digested.
 func (g *c09gen) wrap(op ops.Op) ops.Op {
 	r := g.r
-	switch r.Weighted([]int{8, 30, 62}) {
+	switch r.Weighted([]int{5, 30, 65}) {
 	case 0:
-		op.D = 2
+		if op.K != "yun" {
+			op.D = 2
+		}
 		return op
 	case 1:
 		return op
